@@ -37,8 +37,12 @@ Tag ==
   /\ (E.status = "nil" /\ ~E.onetoken) => Report("C17", "not one string literal")
   /\ (E.status = "nil" /\ ~E.empty /\ ~E.lookups) => Report("C17", "reflect.StructTag does not return the value")
   /\ (E.status = "nil" /\ ~E.sorted) => Report("C17", "keys not sorted")
+\* many literals as the elements of one list (no element type to lean on): each denotes what it denotes alone
+Bulk ==
+  /\ E.ev = "bulk"
+  /\ (E.differ > 0) => Report(E.prop, "a literal among many in one list differs from the same literal alone: " \o E.kind)
 TInit == l = 1 /\ x = 0
-TNext == l <= Len(Trace) /\ l' = l + 1 /\ (Num \/ Str \/ Tag) /\ UNCHANGED x
+TNext == l <= Len(Trace) /\ l' = l + 1 /\ (Num \/ Str \/ Tag \/ Bulk) /\ UNCHANGED x
 TSpec == TInit /\ [][TNext]_<<l, x>>
 Accepted == TLCGet("stats").diameter - 1 = Len(Trace)
 =============================================================================
